@@ -610,5 +610,6 @@ pub fn run(ctx: &Ctx, st: &mut Stats, tick: &mut dyn FnMut(&str)) {
     if !ctx.quick() {
         st.merge(int16_full::<Int16Type>(ctx, "int16-full-square"));
         st.merge(int16_full::<UInt16Type>(ctx, "uint16-full-square"));
+        tick("int16 full square");
     }
 }
